@@ -15,6 +15,7 @@ is arbitrary (`runS`, `readFull` = the loop of `io.ReadAtLeast`).
                            encoding; never the recursion-budget fault; allocation ≤ 6·data + 32 KiB
 * `C07_stream_sticky`      a reader that returns no error before its final one: exactly `streamDecodeC` —
                            what ModelIO DEFINES by reduction is PROVED from the `io.ReadFull` loop
+* `C07_stream_sticky_last`  the same when the final error arrives TOGETHER with the last piece (modes D/X of `wkbs`)
 * `C07_stream_error_dropped`, `C07_stream_error_kept`  the two behaviours of a non-sticky error, by `decide`
 -/
 set_option linter.unusedSimpArgs false
@@ -164,6 +165,32 @@ def isPt12 (r : Except AErr BGeom) : Bool :=
   match r with | .ok g => Geom.beq g (.point ⟨0x3ff0000000000000, 0x4000000000000000⟩) | .error _ => false
 def errIs (r : Except AErr BGeom) (e : AErr) : Bool :=
   match r with | .ok _ => false | .error x => x == e
+
+/-- `wkb.Read` cannot tell a final error that arrives together with the last piece from the same error
+arriving alone afterwards -/
+theorem streamAnyC_normLast (s : List Ev) (fin : RErr) :
+    streamAnyC fixed (normLast fin s) fin = streamAnyC fixed s fin := by
+  have h := runS_normLast fin (readP fixed ((dataOf s).length + 1)) s
+  simp only [streamAnyC, dataOf_normLast]
+  refine cm_ext ?_ h.2
+  simp only [h.1]
+  cases (runS fin (readP fixed ((dataOf s).length + 1)) s).res with
+  | error e => rfl
+  | ok r => rfl
+
+/-- **C07_stream_sticky_last.** The sticky readers of `C07_stream_total` in full — no error before the
+final one, and the final error `fin` either alone or TOGETHER WITH THE LAST PIECE (modes D and X of the
+`wkbs` lines): result and cost are exactly `streamDecodeC`'s. -/
+theorem C07_stream_sticky_last (s : List Ev) (fin : RErr) (h : errsOf (normLast fin s) = []) :
+    (match (streamAnyC fixed s fin).res with | .ok g => .ok g | .error e => .error e.toSErr)
+        = (streamDecodeC fixed (dataOf s) fin.toREnd).res ∧
+      (streamAnyC fixed s fin).cost = (streamDecodeC fixed (dataOf s) fin.toREnd).cost := by
+  have := C07_stream_sticky (normLast fin s) fin h
+  rwa [streamAnyC_normLast, dataOf_normLast] at this
+
+/-- the hypothesis is satisfiable by a script that is NOT error-free: EOF together with the last piece -/
+example : errsOf [⟨pt12.take 7, none⟩, ⟨pt12.drop 7, some .eof⟩] ≠ [] ∧
+    errsOf (normLast .eof [⟨pt12.take 7, none⟩, ⟨pt12.drop 7, some .eof⟩]) = [] := by decide
 
 /-- sticky reader, pieces of 2 + 19 bytes with an empty read in between: the hypothesis of
 `C07_stream_sticky` is satisfiable and the call succeeds -/
